@@ -196,5 +196,6 @@ Definition judge_run (cmd : list N) : list N :=
   | 34 :: args => RunNav.run_nav 34 args
   | 35 :: args => RunNav.run_nav 35 args
   | 36 :: args => RunNav.run_nav 36 args
+  | 37 :: args => RunNav.run_nav_full args
   | _ => [4]
   end.
